@@ -119,6 +119,12 @@ CLAIMED = {
    design="5/C19",
    note="TLC explores all schedules of the model; the real threads show only the schedules the OS produces (16 cores, small pipe, slow reader). No hook is placed inside std's lock. Trusted: PrintLock.tla, AtomicChoice.tla, TLC, the tokenizer of the pipe content.",
    technique="TLA+ spec (PrintLock, AtomicChoice) + TLC: exhaustive schedule exploration of the model; observed pipe output and register histories validated by TLC (linearization search)"),
+ "C04": dict(
+   level="exploration",
+   text="Seeded escape-rich, boundary-rich, arbitrary-byte and arbitrary-Unicode inputs are pushed through every entry point the statement lists (parser, strip and styled-run adapters, strip stream, git and LS_COLORS parsers, lossy conversion with arbitrary palettes, render_svg, to_roff) in a build with debug assertions and overflow checks on, each call under catch_unwind; returned text pieces must be valid UTF-8 lying inside the input; one event per input is validated by the Trace_Total specification (totality: a panic is never a behaviour of the specification). TLC additionally checks, on the specification, the state invariants that make the crate's unsafe blocks sound (parameter/intermediate/OSC bookkeeping limits, text pieces on character boundaries). All other checks also record panics as data and reject them.",
+   design="5/C04",
+   note="Exploration level: absence of memory errors in release builds cannot be decided by traces; Miri/ASan are not run by this check. Trusted: the harness' catch_unwind and pointer-range observation.",
+   technique="TLA+ spec invariants (VtParser limits, Strip boundaries) checked by TLC + seeded exploration of all entry points validated against the totality trace specification"),
 }
 PENDING_REASON = "check not built yet in this revision of /verif (planned with the TLA+ specification, see DESIGN.md section 5); not claimed until its quick command exists"
 
